@@ -160,6 +160,8 @@ def run(a, prop, seed, meta, known, fixed, tmp, t0):
 
     # ---- committed replays + generated search ------------------------------------------------------------------
     replays = sorted(glob.glob(os.path.join(common.VERIF, 'replays', f'{prop}-*.json')))
+    if os.environ.get('VERIF_NO_REPLAYS'):   # sensitivity self-test only: the generated search must find the breakage by itself
+        replays = []
     nshards = a.shards or int(meta['shards'][tier])
     nshards = max(1, min(nshards, os.cpu_count() or 1))
     budget = a.budget if a.budget is not None else float(meta['budget'][tier])
